@@ -812,10 +812,19 @@ impl Template {
                         // hack: invert_tag structure is similar to ExpressionSpec, so I
                         // use it here to represent the data
 
+                        let mut chain_omit_pre_ws = false;
                         if rule == Rule::invert_chain_tag {
+                            if it.peek().map(Pair::as_rule)
+                                == Some(Rule::leading_tilde_to_omit_whitespace)
+                            {
+                                chain_omit_pre_ws = true;
+                                it.next();
+                            }
                             let _ = Template::parse_name(source, &mut it, span.end())?;
                         }
-                        let exp = Template::parse_expression(source, it.by_ref(), span.end())?;
+                        let mut exp =
+                            Template::parse_expression(source, it.by_ref(), span.end())?;
+                        exp.omit_pre_ws |= chain_omit_pre_ws;
 
                         if exp.omit_pre_ws {
                             Template::remove_previous_whitespace(&mut template_stack);
